@@ -1,6 +1,8 @@
 (* C05 — a sequential node never overlaps any other node of its execution. *)
 From Coq Require Import List.
 From Tawazi Require Import Graph Sched SchedInv.
+From Tawazi Require Reconf ReconfFacts.
+From Coq Require Import ZArith.
 Import ListNotations.
 
 (* whenever a sequential node is handed out and not yet observed finished, it is the ONLY node in
@@ -25,3 +27,17 @@ Theorem C05_sequential_blocks_dispatch (c : cfg) (s : state) (x : nat) (l : labe
   step c s l = Some s' -> exists k dones, l = LWait k MAll dones.
 Proof. exact (sequential_blocks_dispatch c s x l s'). Qed.
 Print Assumptions C05_sequential_blocks_dispatch.
+
+(* "every configuration": config entries that name only the priority never change an is_sequential flag,
+   over whole histories of reconfigurations; an entry reaching a node changes only the fields it names *)
+Theorem C05_priority_only_reconfiguration_keeps_sequential (nodes : list nat) (tagged : nat -> list nat) (cs : list Reconf.cstep) (st : Reconf.cstate) :
+  (forall c a e, In c cs -> In (a, e) (Reconf.c_entries c) -> Reconf.e_seq e = None) ->
+  forall n, Reconf.a_seq (Reconf.s_attr (Reconf.run nodes tagged st cs) n) = Reconf.a_seq (Reconf.s_attr st n).
+Proof. exact (ReconfFacts.run_prio_only nodes tagged cs st). Qed.
+Print Assumptions C05_priority_only_reconfiguration_keeps_sequential.
+
+Theorem C05_reconfiguration_entry_applied (nodes : list nat) (tagged : nat -> list nat) (st : Reconf.cstate) (c : Reconf.cstep) (st' : Reconf.cstate) (l : list (nat * Reconf.centry)) (n : nat) (e : Reconf.centry) :
+  Reconf.step nodes tagged st c = Some st' -> Reconf.expand nodes tagged (Reconf.c_entries c) = Some l -> In (n, e) l ->
+  Reconf.s_attr st' n = Reconf.apply_entry (Reconf.s_attr st n) e.
+Proof. exact (ReconfFacts.step_touched nodes tagged st c st' l n e). Qed.
+Print Assumptions C05_reconfiguration_entry_applied.
